@@ -115,6 +115,24 @@ def json_lines(rnd, n):
         doc += '{"x":[1,2]}}'
         for key in ("k", "m1099" if not wrap else "m39", "zz"):
             L.append("jf %s %s m=%s" % (hx(key), hx(doc), json.dumps(members, separators=(",", ":"))))
+    # a value nested deeper than any fixed-size bookkeeping (64 / 65 / 66 / 128 / 300 levels of objects, of arrays, alternating, and an
+    # object only at the outermost or only at the innermost level) before the wanted member
+    for depth in (63, 64, 65, 66, 70, 128, 129, 300):
+        for style in ("obj", "arr", "alt", "outer", "inner"):
+            opn, cls = "", ""
+            for d in range(depth):
+                isobj = {"obj": True, "arr": False, "alt": d % 2 == 0, "outer": d == 0, "inner": d == depth - 1}[style]
+                opn += '{"n":' if isobj else "["
+                cls = ("}" if isobj else "]") + cls
+            doc = '{"deep":'
+            members = [[hx("deep"), False, len(doc)]]
+            doc += opn + "1" + cls + ',"target":'
+            members.append([hx("target"), False, len(doc)])
+            doc += '7,"n":'
+            members.append([hx("n"), False, len(doc)])
+            doc += "8}"
+            for key in ("target", "n", "deep", "zz"):
+                L.append("jf %s %s m=%s" % (hx(key), hx(doc), json.dumps(members, separators=(",", ":"))))
     return L
 
 
